@@ -290,6 +290,26 @@ def gen_selects(rng, tier):
     return cases
 
 
+def gen_special_identifier_keys(rng, tier):
+    """identifier variant keys that LOOK like float specials (inf, infinity, nan in any case): they are identifiers, matched as strings"""
+    cases = []
+    keys = ['inf', 'nan', 'infinity', 'Infinity', 'NaN', 'INF', 'e', 'E1', 'x1e3', 'other', 'one']
+    svals = [b'inf', b'nan', b'infinity', b'Infinity', b'NaN', b'INF', b'other', b'x', b'1']
+    i = 0
+    for k in (2, 3):
+        for combo in itertools.combinations(keys, k):
+            for d in range(k):
+                body = ''.join('   %s[%s] K-%s\n' % ('*' if j == d else ' ', key, key) for j, key in enumerate(combo))
+                ftl = 'e = <{ $n ->\n%s }>\n-t = { $level ->\n%s }\nf = { -t(level: "%s") }\n' % (body, body.replace('K-', 'T-'), combo[0])
+                vals = [v_str(x) for x in rng.sample(svals, 3)] + [G.v_f64(float('inf')), G.v_f64(float('nan')), mnum(1.0)]
+                for v in (vals if tier != 'quick' else rng.sample(vals, 2)):
+                    cases.append(Case([ftl], msg('e'), [('n', v)], locales=[b'en'], **cfgs(i)))
+                cases.append(Case([ftl], msg('f'), [], locales=[b'en'], **cfgs(i)))
+                i += 1
+    rng.shuffle(cases)
+    return cases[:600 if tier == 'quick' else 20000]
+
+
 def gen_functions(rng, tier):
     """registered functions record what they receive: resolved positional and named arguments, in order"""
     base = 'm = M{ $a }\n    .at = MA\n-t = T{ $x }\n    .at = TA{ $x }\n'
@@ -380,6 +400,7 @@ def generate(rng, tier):
     yield ('term-argument-scoping', G.render(gen_scoping(rng, tier)))
     yield ('missing-reference-at-every-position', G.render(gen_missing_positions(rng, tier)))
     yield ('selects-every-key-order', G.render(gen_selects(rng, tier)))
+    yield ('selects-identifier-keys-like-float-specials', G.render(gen_special_identifier_keys(rng, tier)))
     yield ('functions-record-arguments', G.render(gen_functions(rng, tier) + gen_attributes(rng, tier) + witnesses()))
     yield ('equal-patterns-no-cycle', G.render(gen_false_cycle(rng, tier)))
     # the shared resolver generators (C06): the oracle decides what it can (English plurals, plain numbers) and skips the rest
